@@ -409,6 +409,7 @@ def run(rep):
     from vlib import cg as _cg
     icfg = [dict(inst=i) for i in (_cg.instances(rep.tier, small=True)[:3] if rep.tier == "quick" else _cg.instances(rep.tier))]
     icfg.append(dict(inst=dict(kind="three", rates=(10, 25, 7), windows=(2, 1, 2), ts_max=0.5, mode="mcs")))
+    icfg += [dict(inst=i) for i in _cg.random_instances(rep.tier, quick_n=2)]
     rep.configs = rep.configs + icfg
     obs += pmap("props.c13", "worker_instance", icfg, rep.tier)
     rep.add_all(obs)
